@@ -183,7 +183,7 @@ namespace sqf::runtime
         {
             if (m_position == position_invalid)
             {
-                return (*m_instruction_set.begin())->diag_info();
+                return m_instruction_set.empty() ? sqf::runtime::diagnostics::diag_info{} : (*m_instruction_set.begin())->diag_info();
             }
             else if (m_position == m_instruction_set.size())
             {
